@@ -90,11 +90,15 @@ space!(SD16, sd16, 35, 18);
 space!(SD32, sd32, 67, 34);
 space!(SD64, sd64, 131, 66);
 
-/// NOT Copy, NOT Clone.
+/// NOT Copy, NOT Clone. size_of == 4, align_of == 2 (not 1, so that an element stride that is
+/// confused with a byte offset would not go unnoticed); `tag` is a constant that every token
+/// carries: a "token" read from a wrong address or from uninitialised storage fails the tag check.
 pub struct Tok<S: Space> {
     pub id: u8,
+    pub tag: u16,
     _s: PhantomData<S>,
 }
+pub const TAG: u16 = 0x0C18;
 
 #[inline(always)]
 pub fn st<S: Space>(id: u8) -> u8 {
@@ -104,12 +108,13 @@ pub fn st<S: Space>(id: u8) -> u8 {
 impl<S: Space> Tok<S> {
     #[inline(always)]
     pub fn new(id: u8) -> Self {
-        Tok { id, _s: PhantomData }
+        Tok { id, tag: TAG, _s: PhantomData }
     }
 }
 
 impl<S: Space> Drop for Tok<S> {
     fn drop(&mut self) {
+        assert!(self.tag == TAG, "C18: dropped something that is not an element");
         let s = S::get(self.id);
         assert!(s < DROPPED, "C18: an element was dropped twice");
         S::set(self.id, s + 2); // LIVE -> DROPPED, HANDED -> DROPPED_BY_CALLER
@@ -151,6 +156,7 @@ impl<S: Space> fmt::Debug for Tok<S> {
 /// The caller receives a yielded token: it must be the expected one and must not have been
 /// handed out or dropped before (LIVE -> HANDED).
 pub fn receive<S: Space>(t: &Tok<S>, expect: usize) {
+    assert!(t.tag == TAG, "C18: iterator yielded something that is not an element");
     assert!(t.id as usize == expect, "C18: iterator yielded the wrong element");
     assert!(S::get(t.id) == LIVE, "C18: element yielded twice or after being dropped");
     S::set(t.id, HANDED);
